@@ -393,4 +393,62 @@ theorem C15_F36_counterexample_pinned :
 example : IsBase (.random 3 false) := Or.inr ⟨3, false, rfl⟩
 example : (runLive (f35Env .patched) f35Algo f35Run).st.nf = 4 := by decide
 
+/-! ### The headline statement: `observe (recover (setup a) (persist run)) = observe (runLive (setup a) run)` -/
+
+/-- The observable state the property names: proposal and feedback counts, de-duplication memory,
+population (each individual with its fitness and metadata). -/
+structure Obs where
+  np : Nat
+  nf : Nat
+  cache : Cache
+  pop : List Item
+
+def observe : St → Obs
+  | .sweeping np nf _ => ⟨np, nf, [], []⟩
+  | .random np nf _ => ⟨np, nf, [], []⟩
+  | .deduping np nf _ c => ⟨np, nf, c, []⟩
+  | .evolution np nf _ _ _ pop _ => ⟨np, nf, [], pop⟩
+
+/-- The configurations covered by the theorem: Sweeping, Random (seeded or not), Deduping over them,
+Evolution (any operations, any initial size) initialised by them. -/
+inductive Supported : Algo → Prop
+  | sweeping : Supported .sweeping
+  | random (seed : Nat) (sd : Bool) : Supported (.random seed sd)
+  | dedupBase (inner : Algo) (hid md ma : Nat) (au : Bool) : IsBase inner → Supported (.deduping inner hid md ma au)
+  | evoBase (init : Algo) (sz : Option Nat) : IsBase init → Supported (.evolution init sz)
+
+/-- C15, first sentence, for the current source: for every supported configuration and EVERY run
+(hence at every crash point, with any subset of proposals in flight), the fresh instance that
+replays the persisted history reaches the observable state of the uninterrupted one. -/
+theorem C15_recover (env : Env) (hq : env.q = currentQuirks) (a : Algo) (hs : Supported a) (run : List Event) :
+    (recover env a (setup a) (runLive env a run).hist).map observe = .ok (observe (runLive env a run).st) := by
+  have hq' : env.q = Quirks.patched := by rw [hq, C15_quirks_patched]
+  cases hs with
+  | sweeping => rw [C15_recover_sweeping]; rfl
+  | random seed sd =>
+    cases sd with
+    | true => rw [C15_recover_random_seeded]; rfl
+    | false =>
+      rw [live_random env seed false run]
+      simp only [recover, setup, baseRecover_random, Nat.zero_add, Bool.false_eq_true, ↓reduceIte]
+      rfl
+  | dedupBase inner hid md ma au hb =>
+    have hnf : needsFeedback inner = false := by
+      rcases hb with rfl | ⟨seed, sd, rfl⟩ <;> rfl
+    have htot : RecoverTotal env inner := by
+      rcases hb with rfl | ⟨seed, sd, rfl⟩
+      · exact recoverTotal_sweeping env
+      · exact recoverTotal_random env seed sd
+    obtain ⟨np, nf, si, si', c, h1, h2⟩ :=
+      C15_recover_dedup_partial env (by rw [hq']; rfl) inner hid md ma au hnf htot run
+    rw [h1, h2]; rfl
+  | evoBase init sz hb =>
+    obtain ⟨np, nf, pop, si, ini, g, pend, si', ini', g', pend', h1, h2⟩ :=
+      C15_recover_evolution env hq' init hb sz run
+    rw [h1, h2]; rfl
+
+example : Supported (.deduping (.random 3 true) 0 1 4 false) := .dedupBase _ _ _ _ _ (Or.inr ⟨3, true, rfl⟩)
+example : Supported (.evolution .sweeping none) := .evoBase _ _ (Or.inl rfl)
+example : (f35Env currentQuirks).q = currentQuirks := rfl
+
 end Pg.C15
